@@ -40,7 +40,7 @@ pub struct Graph<'tree> {
     graph_nodes: Vec<GraphNode>,
 }
 
-pub(crate) type SyntaxNodeID = u32;
+pub(crate) type SyntaxNodeID = usize;
 type GraphNodeID = u32;
 
 impl<'tree> Graph<'tree> {
